@@ -20,6 +20,15 @@ tab-odd : tables of 11..14 columns (wider than the column limit) that are all in
           The footer must not claim one homogeneous dtype.
 tab-sp  : two-column tables whose second column carries one special value (alone, after a plain value, at the
           head / hidden middle / tail of a column longer than the limit), limits {None, 2}.
+rewrite : repr, write, repr again (ops 'vec-rw' / 'tab-rw').  A vector / a table column (int, float, object, str, bool, date) of
+          1, 3 or limit+3 elements is printed, ONE element (head, middle - hidden when truncated - or tail) is then replaced in
+          place, and the object is printed again; a second replacement of the same cell by a third value and a third repr follow.
+          Writes: v[i] = x, one-cell slice and mask writes; for tables t[i, 'a'] = x, t.a[i] = x, a view held since before
+          the first repr, t['a'][i] = x, slice and mask writes of the view.  Replacements: ordinary ones (5 -> 6, 'a' -> 'b',
+          1.5 -> 2.5, a date, True -> False) and values that are different but EQUAL IN HASH (and mostly ==) to the value they
+          replace: -1 / -2, 0 / 2**61-1, 0.0 / -0.0, -1.0 / -2.0, 2.0 -> 2, and 1 / True / 1.0, 0 / False in object columns.
+          Limits {None, 2}.  After every write repr must be exactly the repr of a FRESHLY BUILT object (same values as now
+          stored, same dtype, same names), must leave the object unchanged, and a vector's text is parsed as in 'vec'.
 Both tiers run the same lattice (it takes seconds); thorough adds the limits 6, 13, 20 for vectors.
 
 Oracle (statement only): repr returns a str, `view(x)` is unchanged; the last line is the footer and states
@@ -512,8 +521,153 @@ def companion(x):
     return [Opaque(2), Opaque(3)]
 
 
+# ---------------------------------------------------------------------------------------------
+# repr, write, repr again
+# ---------------------------------------------------------------------------------------------
+M61 = 2 ** 61 - 1
+assert hash(-1) == hash(-2) and hash(0) == hash(M61) and hash(0.0) == hash(-0.0) and hash(-1.0) == hash(-2.0) and hash(1) == hash(True)
+# (family, filler values, [(old, new, newer)]): `old` sits in the cell, is replaced by `new`, then by `newer`
+RW_FAMILIES = [
+    ('int', [7, 8, 9], [(-1, -2, -1), (-2, -1, 3), (0, M61, 0), (M61, 0, M61), (5, 6, 5)]),
+    ('float', [7.5, 8.5, 9.5], [(0.0, -0.0, 0.0), (-0.0, 0.0, 1.5), (-1.0, -2.0, -1.0), (2.0, 2, 2.0), (1.5, 2.5, 1.5)]),
+    ('object', ['s', 2.5, 'u'], [(1, True, 1), (True, 1, 1.0), (1, 1.0, True), (0, False, 0), ('a', 'b', 'a'), (-1, -2, None)]),
+    ('str', ['p', 'q', 'r'], [('a', 'b', 'a')]),
+    ('bool', [True, False, True], [(True, False, True)]),
+    ('date', [date(2020, 1, 1), date(2020, 1, 2), date(2020, 1, 3)], [(date(2021, 5, 5), date(2021, 5, 6), date(2021, 5, 5))]),
+]
+RW_VEC_HOWS = ['cell', 'slice', 'mask']
+RW_TAB_HOWS = ['table-cell', 'view-cell', 'held-view-cell', 'getitem-cell', 'view-slice', 'view-mask']
+
+
+def hash_equal(a, b):
+    try:
+        return hash(a) == hash(b)
+    except TypeError:
+        return False
+
+
+def rw_cases(tier):
+    idx = 0
+    for limit in (None, 2):
+        L = limit_value(limit)
+        for fam, filler, triples in RW_FAMILIES:
+            for old, new, newer in triples:
+                for n in (1, 3, L + 3):
+                    for posn in sorted({0, n // 2, n - 1}):
+                        vals = [filler[i % len(filler)] for i in range(n)]
+                        vals[posn] = old
+                        for shape, hows in (('vec-rw', RW_VEC_HOWS), ('tab-rw', RW_TAB_HOWS)):
+                            for hi, how in enumerate(hows):
+                                idx += 1
+                                if tier == 'quick' and shape == 'tab-rw' and not hash_equal(old, new) and (idx + hi) % 3:
+                                    continue
+                                yield {'op': shape, 'family': fam, 'values': lit(vals), 'pos': posn, 'steps': lit([new, newer]), 'how': how,
+                                       'limit': limit, 'name': lit([None, 'v'][idx % 2]), 'hash_equal': hash_equal(old, new)}
+
+
+def fresh_vector(c):
+    dt = c.schema()
+    return Vector(list(c._underlying), name=c._name, **({'dtype': dt} if dt is not None else {}))
+
+
+def rw_write(x, held, how, i, val):
+    n = len(x)
+    if how == 'cell':
+        x[i] = val
+    elif how == 'slice':
+        x[i:i + 1] = [val]
+    elif how == 'mask':
+        x[Vector([j == i for j in range(n)])] = val
+    elif how == 'table-cell':
+        x[i, 'a'] = val
+    elif how == 'view-cell':
+        x.a[i] = val
+    elif how == 'held-view-cell':
+        held[i] = val
+    elif how == 'getitem-cell':
+        x['a'][i] = val
+    elif how == 'view-slice':
+        x.a[i:i + 1] = [val]
+    elif how == 'view-mask':
+        x.a[Vector([j == i for j in range(n)])] = val
+    else:
+        raise AssertionError(how)
+
+
+def eval_rw(case):
+    vals, i, limit, how = ev(case['values']), case['pos'], case['limit'], case['how']
+    is_tab = case['op'] == 'tab-rw'
+    cls_name = 'Table' if is_tab else 'Vector'
+    name = ev(case['name'])
+    n = len(vals)
+    try:
+        if is_tab:
+            x = Table([Vector([7000 + j for j in range(n)], name='m'), Vector(list(vals), name='a'), Vector([f't{j}' for j in range(n)], name='b')])
+            held = x.a
+            col = lambda: x.cols()[1]            # noqa: E731
+        else:
+            x = Vector(list(vals), name=name)
+            held = None
+            col = lambda: x                      # noqa: E731
+        if isinstance(x, Table) != is_tab:
+            return []
+    except Exception:
+        return []
+    desc0 = (f"Table(m=7000.., a={case['values']}, b='t0'..)" if is_tab else f"Vector({case['values']}, name={name!r})") + f' at limit {limit_value(limit)}'
+    try:
+        texts = [safe_repr(x, limit)]
+    except Exception:
+        return []                  # totality of a first repr: the other blocks
+    fails = []
+    current = list(vals)
+    for step, val in enumerate(ev(case['steps'])):
+        try:
+            rw_write(x, held, how, i, val)
+            stored = list(col()._underlying)
+        except Exception:
+            return fails           # the write was refused: not this property's business
+        want_now = list(current)
+        want_now[i] = val
+        if [(type(a).__name__, repr(a)) for a in stored] != [(type(a).__name__, repr(a)) for a in want_now]:
+            return fails           # the write converted / did not store the value: repr is judged on what IS stored only when it took
+        replaced, current = current[i], want_now
+        kind = 'hash-equal-replacement' if hash_equal(replaced, val) else 'ordinary-replacement'
+        desc = f'{desc0}: repr, then cell {i} {replaced!r} -> {val!r} ({how})' + (f' [write #{step + 1}]' if step else '') + ', then repr'
+        site = f'C20:{cls_name}.repr-after-write:{how}'
+        before = view(x)
+        try:
+            r = safe_repr(x, limit)
+        except Exception as e:
+            fails.append(Fail(f'{site}:raises:{kind}', f'{desc}: raised {type(e).__name__}: {e}', 'a string', type(e).__name__))
+            return fails
+        if view(x) != before:
+            fails.append(Fail(f'{site}:mutates', f'{desc}: repr changed the object', before, view(x)))
+        try:
+            fresh = Table([fresh_vector(c) for c in x.cols()]) if is_tab else fresh_vector(x)
+            want = safe_repr(fresh, limit)
+        except Exception:
+            want = None
+        if want is not None and r != want:
+            cls = 'shows-the-text-of-before-the-write' if r == texts[-1] else 'shows-an-earlier-text' if r in texts else 'differs-from-fresh-object'
+            fails.append(Fail(f'{site}:{cls}:{kind}', f'{desc}: the text differs from the repr of a freshly built {cls_name} holding the same values '
+                              f'{stored!r}', want, r))
+        elif not is_tab and not (x.schema() is not None and x.schema().kind in (int, float, complex) and any(isinstance(a, bool) for a in stored)):
+            # the text of the written vector, parsed against the statement like any other vector.  (Not parsed: a bool that sits in an
+            # int / float column after the writes - Vector([1.5, True]) prints it in the column's format, '1.0', on a fresh object as
+            # well; whether that misstates the data is not a matter of the write history and is left to the fresh-object comparison.)
+            for f in check_vector(x, stored, name, limit, desc, {}):
+                if f['key'].startswith('C20:') and not f['key'].startswith(site):
+                    f['key'] = f['key'].replace('C20:Vector.repr', site, 1)
+                fails.append(f)
+        texts.append(r)
+        if fails:
+            return fails
+    return fails
+
+
 def cases(tier, seed):
     q = tier == 'quick'
+    yield from rw_cases(tier)
     # vectors: dtype x length x limit x name
     for limit in (LIMITS if q else LIMITS + [6, 13, 20]):
         L = limit_value(limit)
@@ -585,6 +739,8 @@ def cases(tier, seed):
 
 def evaluate(case):
     try:
+        if case['op'] in ('vec-rw', 'tab-rw'):
+            return eval_rw(case)
         return eval_vec(case) if case['op'] == 'vec' else eval_tab(case)
     finally:
         set_repr_rows(None)
@@ -592,6 +748,9 @@ def evaluate(case):
 
 def nontrivial(case):
     L = limit_value(case['limit'])
+    if case['op'] in ('vec-rw', 'tab-rw'):
+        n = len(ev(case['values']))
+        return (case['op'], case['family'], case['how'], case['hash_equal'], case['limit'], n > L, case['pos'] == 0, case['pos'] == n - 1)
     if case['op'] == 'vec':
         vals = ev(case['values'])
         rel = 'empty' if not vals else ('below' if len(vals) < L else 'equal' if len(vals) == L else 'above')
@@ -613,9 +772,12 @@ if __name__ == '__main__':
          rule='every dtype x nullable x length 0..limit+3 x limit in {12(default),0,1,2,3,4,5} x 6 names for vectors; 18 special values '
               'alone / paired / inside object vectors / at head, hidden middle and tail of a vector longer than the limit; tables of '
               'width 0..12 x rows 0..14 x 6 name patterns x 4 dtype patterns x 7 limits; tables of width 11..14 whose only odd-typed / '
-              'odd-nullability column sits at each elided position (and visible controls); two-column tables with a special cell. '
+              'odd-nullability column sits at each elided position (and visible controls); two-column tables with a special cell; '
+              'repr / in-place write of one cell (cell, slice, mask; table cell assignment and column views) / repr again, twice, with ordinary and '
+              'hash-equal replacement values (-1/-2, 0/2**61-1, 0.0/-0.0, 1/True/1.0 in object columns) vs the repr of a freshly built object. '
               'repr is parsed for footer, header names, dtype tokens and body lines; distinct = (types, length vs limit, limit, names)',
          bound=lambda tier: {'limits': [12, 0, 1, 2, 3, 4, 5], 'max_len': 15, 'max_width': 12, 'max_rows': 14, 'kinds': len(KINDS),
                              'odd_column_widths': [11, 12, 13, 14],
-                             'specials': len(SPECIALS), 'extra_vector_limits': [] if tier == 'quick' else [6, 13, 20]},
+                             'specials': len(SPECIALS), 'rewrite_families': [f for f, _, _ in RW_FAMILIES], 'rewrite_writes': RW_VEC_HOWS + RW_TAB_HOWS,
+                             'rewrite_lengths': '1, 3, limit+3 at limits 12 and 2', 'extra_vector_limits': [] if tier == 'quick' else [6, 13, 20]},
          nontrivial=nontrivial)
